@@ -43,6 +43,25 @@ def directed(rng, tier):
                 hs.round([], w, 30)                                                      # periodic senders fire
             hs.round([(3, hs.publish(102, b"after", src_mod=32))], [1, 3, 4], 31)
             out.append(hs)
+    # a subscriber whose send buffer has little room left (it reads, but slowly): a blocking send waits for it - the
+    # documented design, so nothing changes for the code as it is; an implementation that sends without waiting must
+    # not leave part of a frame on a connection that stays open
+    for room in (0, 10, 48, 51, 48 + 64, 48 + 64 + 20, 400):
+        for lvl in (60, 40):
+            hs = C.History(loglevel=lvl, tag="slow-reader")
+            for _ in range(4):
+                hs.round([], [], 0, accept=True)
+            w = [1, 2, 3, 4]
+            hs.round([(1, hs.connect_v2(logger=1, mod_id=30))], w, 0)
+            hs.round([(1, hs.sub("sub", C.ALL))], w, 0)
+            hs.round([(2, hs.connect_v1(src_mod=31)), (3, hs.connect_v1(src_mod=32)), (4, hs.connect_v1(src_mod=33))], w, 0)
+            hs.round([(2, hs.sub("sub", 100))], w, 0)
+            hs.round([(4, hs.sub("sub", 100))], w, 0)
+            hs.cap(2, room)
+            for k in range(4):
+                hs.round([(3, hs.publish(100, bytes([65 + k]) * 64, src_mod=32))], w, 1 + k)
+            hs.round([(3, hs.publish(100, b"after", src_mod=32))], w, 9)
+            out.append(hs)
     return out
 
 
